@@ -61,7 +61,40 @@ def _work(chunk):
     return len(chunk), out
 
 
+def char_level(run, es5):
+    """white space / illegal characters at the edges of and inside a text (public entry point)."""
+    from .. import charclass
+    sets = charclass.es5_sets()
+    walkers = importlib.import_module('calmjs.parse.walkers')
+    rw = walkers.ReprWalker()
+    ws = [chr(cp) for lo, hi in sets['WhiteSpace'] for cp in range(lo, hi + 1)]
+    lt = [chr(cp) for lo, hi in sets['LineTerminator'] for cp in range(lo, hi + 1)]
+    bad = [chr(cp) for cp in list(range(0, 32)) + list(range(127, 160)) + [0x180e, 0x200b, 0x2060, 0xfffe, 0xffff, 0xe000]
+           if chr(cp) not in ws and chr(cp) not in lt]
+    base = rw.walk(es5.parse('a;b'))
+    n = 0
+    for c in ws + lt + bad:
+        for where, text in (('leading', c + 'a;b'), ('between tokens', 'a;' + c + 'b'), ('trailing', 'a;b' + c)):
+            n += 1
+            try:
+                got = rw.walk(es5.parse(text))
+            except Exception as e:
+                if type(e).__name__ not in ('ECMASyntaxError', 'ECMARegexSyntaxError'):
+                    raise
+                got = None
+            want = None if c in bad else base
+            if got != want:
+                why = '%s U+%04X: %s' % (where, ord(c), 'rejected, but it is ES5 white space / a line terminator' if got is None else
+                                         ('accepted, but U+%04X is not a SourceCharacter any ES5 token or separator can contain here' % ord(c)
+                                          if want is None else 'read as a different tree'))
+                run.failed('rt.grammar.chars', 'E4/bounded', '%s U+%04X' % (where, ord(c)), dict(source=text, problem=why),
+                           observed=why, required='white space and line terminators separate tokens and nothing else does', replayed=True)
+    run.bounded_check('rt.grammar.chars', 'every ES5 WhiteSpace / LineTerminator code point and %d other control / format code points, '
+                      'leading, between two statements and trailing' % len(bad), n)
+
+
 def bounded(run, tier, g, es5):
+    char_level(run, es5)
     import multiprocessing
     from .. import scratch
     ref = importlib.import_module('spec.es5_reference')
